@@ -709,11 +709,24 @@ func c15Cases(tier string, seed int64) []core.Case {
 			return c15Run(ctx, n, false, false)
 		}})
 	}
+	// an entry larger than a file-system block: a symbolic link whose target (carried in the 9P2000.u extension) is
+	// 4000 bytes long
+	for _, n := range []int{2, 7} {
+		n := n
+		cases = append(cases, core.Case{ID: fmt.Sprintf("dir/entries=%d/long-symlink-target", n), Run: func(ctx *core.Ctx) core.Result {
+			c15LongLink = true
+			defer func() { c15LongLink = false }()
+			return c15Run(ctx, n, true, false)
+		}})
+	}
 	for i := range cases {
 		cases[i].Run = guarded("C15", cases[i].Run)
 	}
 	return cases
 }
+
+// c15LongLink (set by one case, cases of a worker run one after the other): the symbolic links get 4000-byte targets.
+var c15LongLink bool
 
 func c15Run(ctx *core.Ctx, nent int, dotu bool, thorough bool) core.Result {
 	var res core.Result
@@ -754,7 +767,11 @@ func c15Run(ctx *core.Ctx, nent int, dotu bool, thorough bool) core.Result {
 		case 0:
 			_ = os.Mkdir(full, 0o755)
 		case 1:
-			_ = os.Symlink("target", full)
+			tgt := "target"
+			if c15LongLink {
+				tgt = strings.Repeat("abcdefg/", 500) + fmt.Sprintf("%d", i)
+			}
+			_ = os.Symlink(tgt, full)
 		case 3:
 			// a second name of a file that is in the directory already: an entry of its own, with the same qid path
 			if lastFile == "" || os.Link(lastFile, full) != nil {
